@@ -126,7 +126,7 @@ CLAIMS["C10"] = {
     "text": "Tunnel level: while closing, a fresh new_stream yields exactly one close(Unavailable), no handler, unchanged table, tunnel up, id recorded (C10_refused); later "
             "frames of the refused RPC are ignored (C10_later_frames_ignored); every stimulus other than new_stream behaves identically whatever the flag "
             "(C10_flag_only_read_by_new_stream), so in-flight RPCs keep their outcome. " + _SRV + " " + _W1 + " Lifecycle world (real grpc-go on bufconn) for InitiateShutdown / "
-            "GracefulStop / Stop with zero, one and several tunnels. Open findings D9 (GracefulStop waits for idle tunnels' peers) and D10 are KNOWN-FINDING.",
+            "GracefulStop / Stop with zero, one and several tunnels, and the forward-shutdown world for several forward tunnels. Open findings D9 (GracefulStop waits for idle tunnels' peers) and D10 are KNOWN-FINDING.",
     "design_ref": "DESIGN.md A2 (C10), A4 (D9, D10)",
     "note": "Trusted: as C08. GracefulStop/Stop ordering is covered by the API-granular Lifecycle model and its world, not by an interleaving-level theorem.",
     "technique": "Lean 4 theorems over the endpoint model + step-exact correspondence incl. shutdown-flag stimuli and lifecycle world",
@@ -134,7 +134,8 @@ CLAIMS["C10"] = {
 CLAIMS["C11"] = {
     "text": "Theorem C11_select_eq_spec / C11_iff: for every pair of revision lists the client's selection loop picks exactly the highest revision both support, and fails iff "
             "there is none; settings/no-settings and legacy peers as the endpoint code does it (Negotiate.lean); regenerated facts tie supportedRevisions, the settings stream id "
-            "and the negotiate header to the source. " + _CLI + " incl. malformed / empty / duplicate revision lists, and both option values on both ends.",
+            "and the negotiate header to the source. " + _CLI + " incl. malformed / empty / duplicate revision lists, and both option values on both ends. The header wiring on the public API is "
+            "covered by the negotiate world: the library as forward caller, reverse server, forward handler and reverse handler against hand-written current and legacy peers over real grpc-go.",
     "design_ref": "DESIGN.md A2 (C11), A4 (D6)",
     "note": "Trusted: Lean kernel; extractor facts; harness. grpc-go metadata transport of the negotiate header is exercised in the W2 worlds, not modelled.",
     "technique": "Lean 4 theorem (selection = spec, all lists) + differential correspondence",
